@@ -11,6 +11,7 @@ import json
 import os
 import random
 import re
+import subprocess
 import sys
 import time
 
@@ -327,6 +328,10 @@ def run_check(prop, tier, seed, replay=None):
         except build.BuildError as e:
             broken.append({"kind": "harness", "what": e.what, "log": e.log[-4000:]})
             custom = None
+        except subprocess.TimeoutExpired as e:
+            # a child process of the runtime harness never finished: the library hung on that input
+            custom = {"failures": [{"what": "runtime harness child did not finish within %s s (hang)" % e.timeout,
+                                    "signature": pid + " harness-timeout", "lines": [str(e.cmd)[:300]]}]}
         if custom:
             for f in custom.get("failures", []):
                 sig = f.get("signature", pid + ":" + f.get("what", "")[:80])
